@@ -44,6 +44,8 @@ structure OSt where
   ours : List (List Nat) := []
   mac : List (Nat × List Nat) := []
   inserts : Nat := 0
+  /-- resolutions that failed: (nic, addr, time the lookup that created the entry began) -/
+  failedAt : List (Nat × List Nat × Nat) := []
 deriving Inhabited
 
 structure St where
@@ -216,16 +218,23 @@ def oracleStep (st : St) (toks : List String) (res : String) : St × String :=
           let started := o.pending.any fun (n, x, t0, _) => n == nic && x == a && o.now ≤ t0 + o.attempts * o.timeout + 40
           ret (if started then o else
             { o with pending := (nic, a, o.now, (reqs.filter fun q => q.1 == nic && q.2 == a).length) ::
-                                  o.pending.filter fun (n, x, _, _) => !(n == nic && x == a) }) "ok"
+                                  o.pending.filter fun (n, x, _, _) => !(n == nic && x == a),
+                     failedAt := o.failedAt.filter fun (n, x, _) => !(n == nic && x == a) }) "ok"
         else if r == "nolink" then
           -- only after the whole retry budget was spent without an answer
           let p := o.pending.find? fun (n, x, _, _) => n == nic && x == a
           match p with
           | some (_, _, t0, cnt) =>
-            let o' := { o with pending := o.pending.filter fun (n, x, _, _) => !(n == nic && x == a) }
+            let o' := { o with pending := o.pending.filter fun (n, x, _, _) => !(n == nic && x == a),
+                               failedAt := (nic, a, t0) :: o.failedAt.filter fun (n, x, _) => !(n == nic && x == a) }
             if cnt < o.attempts || o.now + 40 < t0 + o.attempts * o.timeout then ret o' "bad c12.resolution-failed-before-the-retry-budget-was-spent"
+            else if o.now > t0 + o.age + 40 then ret o' "bad c12.entry-reported-after-expiry"
             else ret o' "ok"
-          | none => ret o "ok"
+          | none =>
+            -- the failure is a cached entry too: it is reported only until it expires, then a lookup asks again
+            match o.failedAt.find? fun (n, x, _) => n == nic && x == a with
+            | some (_, _, t0) => if o.now > t0 + o.age + 40 then ret o "bad c12.entry-reported-after-expiry" else ret o "ok"
+            | none => ret o "ok"
         else ret o "bad c12.lookup-result"
       | none => (st, "bad-op")
     | _, _ => (st, "bad-op")
@@ -244,7 +253,8 @@ def oracleStep (st : St) (toks : List String) (res : String) : St × String :=
       -- learning: replies, and requests addressed to us
       let learns := valid && (op == 2 || (op == 1 && ours))
       let o' := if learns then { o with known := learnKey o.known nic spa sha o.now o.age (o.inserts + 1) (pendingSince o.pending nic spa o.now), inserts := o.inserts + 1,
-                                        pending := o.pending.filter fun (n, x, _, _) => !(n == nic && x == spa) } else o
+                                        pending := o.pending.filter fun (n, x, _, _) => !(n == nic && x == spa),
+                                        failedAt := o.failedAt.filter fun (n, x, _) => !(n == nic && x == spa) } else o
       if rep == "-" then ret o' (if expectReply then "bad c12.arp-request-for-own-address-not-answered" else "ok")
       else if !expectReply then ret o' "bad c12.arp-answered-for-foreign-target-or-malformed-request"
       else
